@@ -21,6 +21,7 @@ import (
 	"github.com/cosmos/cosmos-sdk/x/authz"
 	banktypes "github.com/cosmos/cosmos-sdk/x/bank/types"
 	distrtypes "github.com/cosmos/cosmos-sdk/x/distribution/types"
+	govtypes "github.com/cosmos/cosmos-sdk/x/gov/types"
 	stakingtypes "github.com/cosmos/cosmos-sdk/x/staking/types"
 	"github.com/ethereum/go-ethereum/common"
 
@@ -30,6 +31,7 @@ import (
 	fxstakingtypes "github.com/functionx/fx-core/v8/x/staking/types"
 
 	"fxverif/harness/detx"
+	"fxverif/harness/hx"
 )
 
 var switchMsgCandidates = []string{
@@ -76,7 +78,9 @@ func (g *gen) switchParams(round int) fxgovtypes.SwitchParams {
 	} else if g.rng.Intn(3) == 0 {
 		p.DisableMsgTypes = nil
 	}
-	g.out.Count(fmt.Sprintf("switch-params: round=%d msgs=%d precompiles=%d", round, len(p.DisableMsgTypes), len(p.DisablePrecompiles)))
+	if round < 2 {
+		g.out.Count(fmt.Sprintf("switch-params: round=%d msgs=%d precompiles=%d", round, len(p.DisableMsgTypes), len(p.DisablePrecompiles)))
+	}
 	return p
 }
 
@@ -137,4 +141,124 @@ func (g *gen) switchTraffic() {
 		g.eth(g.ethUser(), "crosschain.hasOracle(switch)", "", cc, nil, 2_000_000, d)
 	}
 	g.out.Count("switch-traffic")
+}
+
+// ---------------------------------------------------------------------------------------------------------------
+// correspondence + monitor: the regenerated statement program of GetSwitchParams (interpreted by the Lean driver, op
+// `swget`) against the real keeper, and BRANCH ISOLATION of parameter reads: what a read returns is a function of the store
+// of the context it is given — not of what was read or written on another context (another height, a simulation, a
+// discarded proposal branch) by the same process before.
+
+func encSwitch(p fxgovtypes.SwitchParams) []string {
+	var l []string
+	for _, m := range p.DisableMsgTypes {
+		l = append(l, "m:"+m)
+	}
+	for _, c := range p.DisablePrecompiles {
+		l = append(l, "p:"+c)
+	}
+	return l
+}
+
+func showNames(l []string) string {
+	if len(l) == 0 {
+		return "-"
+	}
+	return strings.Join(l, ",")
+}
+
+func switchOps(out *hx.Out, g *gen) {
+	gk := g.c.App.GovKeeper
+	govKey := g.c.App.GetKey(govtypes.StoreKey)
+	for i := 0; i < hx.N(40, 200); i++ {
+		base := g.c.Ctx()
+		now, _ := base.CacheContext()   // the context that is read
+		other, _ := base.CacheContext() // another context of the same process (an older height, a simulation, a discarded branch)
+		var prev, store *fxgovtypes.SwitchParams
+		if g.rng.Intn(4) != 0 {
+			p := g.switchParams(2 + i)
+			prev = &p
+		}
+		if g.rng.Intn(4) != 0 {
+			p := g.switchParams(2 + i)
+			if g.rng.Intn(6) == 0 {
+				p = fxgovtypes.SwitchParams{}
+			}
+			store = &p
+		}
+		if store == nil {
+			now.KVStore(govKey).Delete(fxgovtypes.FxSwitchParamsKey)
+		} else {
+			must(gk.SetSwitchParams(now, store))
+		}
+		prevW, storeW := "none", "absent"
+		if prev != nil {
+			must(gk.SetSwitchParams(other, prev))
+			_ = gk.GetSwitchParams(other)
+			prevW = showNames(encSwitch(*prev))
+		} else if g.rng.Intn(2) == 0 {
+			_ = gk.GetSwitchParams(other) // a read of the committed record
+		}
+		want := []string{}
+		if store != nil {
+			want = encSwitch(*store)
+			storeW = showNames(want)
+		}
+		got := encSwitch(gk.GetSwitchParams(now))
+		out.Emit(fmt.Sprintf("swget %s %s", prevW, storeW), showNames(got))
+		out.Nontrivial(fmt.Sprintf("swget:prev=%v,store=%v,n=%d", prev != nil, store != nil, min(len(got), 3)))
+		if showNames(got) != showNames(want) {
+			out.Violate(fmt.Sprintf("process memory: GetSwitchParams on a context whose store holds [%s] returned [%s] after a read / write of [%s] on ANOTHER context of the same process (parameter reads are not isolated between contexts)", storeW, showNames(got), prevW))
+			return
+		}
+	}
+	// the same isolation for the crosschain and erc20 parameters and the disabled-message / precompile views
+	type probe struct {
+		name  string
+		touch func(ctx sdk.Context)
+		read  func(ctx sdk.Context) string
+	}
+	probes := []probe{
+		{"crosschain(eth).GetParams", func(ctx sdk.Context) {
+			p := g.c.App.EthKeeper.GetParams(ctx)
+			p.SignedWindow += 7
+			p.AverageBlockTime += 1
+			_ = g.c.App.EthKeeper.SetParams(ctx, &p)
+			_ = g.c.App.EthKeeper.GetParams(ctx)
+		}, func(ctx sdk.Context) string { return fmt.Sprint(g.c.App.EthKeeper.GetParams(ctx)) }},
+		{"erc20.GetParams", func(ctx sdk.Context) {
+			p := g.c.App.Erc20Keeper.GetParams(ctx)
+			p.EnableErc20 = !p.EnableErc20
+			_ = g.c.App.Erc20Keeper.SetParams(ctx, &p)
+			_ = g.c.App.Erc20Keeper.GetEnableErc20(ctx)
+		}, func(ctx sdk.Context) string { return fmt.Sprint(g.c.App.Erc20Keeper.GetParams(ctx)) }},
+		{"gov.GetDisabledMsgs+CheckDisabledPrecompiles", func(ctx sdk.Context) {
+			p := g.switchParams(99)
+			p.DisablePrecompiles = append(p.DisablePrecompiles, strings.ToLower(contract.StakingAddress))
+			_ = gk.SetSwitchParams(ctx, &p)
+			_ = gk.GetDisabledMsgs(ctx)
+		}, func(ctx sdk.Context) string {
+			return fmt.Sprint(gk.GetDisabledMsgs(ctx), gk.CheckDisabledPrecompiles(ctx, common.HexToAddress(contract.StakingAddress), []byte{1, 2, 3, 4}))
+		}},
+	}
+	for _, pr := range probes {
+		func() {
+			defer func() {
+				if recover() != nil {
+					out.Count("isolation:" + pr.name + ":panic") // the history overwrote these parameters with undecodable bytes
+				}
+			}()
+			base := g.c.Ctx()
+			a, _ := base.CacheContext()
+			before := pr.read(a)
+			b, _ := base.CacheContext()
+			pr.touch(b)
+			c, _ := base.CacheContext()
+			after := pr.read(c)
+			out.Count("isolation:" + pr.name)
+			if before != after {
+				out.Violate(fmt.Sprintf("process memory: %s on an untouched context of the committed state returned %.80s after a write + read on ANOTHER (discarded) context, %.80s before (parameter reads are not isolated between contexts)", pr.name, after, before))
+			}
+		}()
+	}
 }
